@@ -18,6 +18,8 @@ entry is attached: the region of `amount` in which the transfer is skipped may o
 over the constants the code compares with); every message built there goes to CONFIG.fee_collector_addr and is
 attached (forward flow to Response::add_messages). F4: the all-time ledgers are written only by the add-only
 helper store_fee (whose stored amount is loaded amount + fee) and by instantiate-time initialisers.
+F5: at instantiation each of the three ledgers receives one zero entry per pool asset, built from the normalised
+asset_infos[0..n) of the request in order (store_fee silently skips an asset without entry).
 """
 ASSUMPTIONS = [
     "Asset::into_burn_msg builds Cw20 Burn / BankMsg::Burn, which removes the tokens from circulation (library semantics)",
@@ -120,35 +122,35 @@ def check_swap(ctx, model, crate):
                "burn message amount from %s; attached: %s; paired with ALL_TIME_BURNED_FEES write: %s" % (sorted(map(repr, src)), bool(sinks), together), v.where(bb))
 
 
-def check_collect(ctx, model, crate, p, ledger, vault=False):
-    v = ctx.view(p, "C07-F3")
+def check_collect(ctx, model, crate, p, ledger, vault=False, rule="C07-F3"):
+    v = ctx.view(p, rule)
     if v is None:
         return
     saves = storage_calls(v, ledger, ("save", "update"))
     if not saves:
-        ctx.missing("C07-F3", "%s reset in %s" % (ledger, p))
+        ctx.missing(rule, "%s reset in %s" % (ledger, p))
         return
     # transfers
     xfers = v.calls_to(r"Asset::into_msg$")
     if not xfers:
-        ctx.ob("C07-F3", "%s|transfer" % p, False, "no transfer of the pending fees is built", v.where())
+        ctx.ob(rule, "%s|transfer" % p, False, "no transfer of the pending fees is built", v.where())
         return
     for xb, xt in xfers:
         rec = arg_origins(v, xb, xt, 1)
         ok_rec = bool(rec) and all(o.kind == "load" and o.a.endswith("::state::CONFIG") and tuple(o.proj) == ("fee_collector_addr",) for o in rec)
-        ctx.ob("C07-F3", "%s|recipient" % p, ok_rec, "transfer recipient: %s (must be CONFIG.fee_collector_addr)" % sorted(map(repr, rec)), v.where(xb))
+        ctx.ob(rule, "%s|recipient" % p, ok_rec, "transfer recipient: %s (must be CONFIG.fee_collector_addr)" % sorted(map(repr, rec)), v.where(xb))
         src = arg_origins(v, xb, xt, 0)
         ok_src = bool(src) and all(o.kind == "load" and o.a.endswith(ledger) for o in src)
-        ctx.ob("C07-F3", "%s|transfers-the-ledger-entry" % p, ok_src, "transferred asset: %s (must be the loaded %s entry)" % (sorted(map(repr, src)), ledger.split("::")[-1]), v.where(xb))
+        ctx.ob(rule, "%s|transfers-the-ledger-entry" % p, ok_src, "transferred asset: %s (must be the loaded %s entry)" % (sorted(map(repr, src)), ledger.split("::")[-1]), v.where(xb))
         tainted, sinks, ret = forward_flow(v, [xt["dest"]["l"]])
-        ctx.ob("C07-F3", "%s|transfer-attached" % p, bool(sinks), "transfer message reaches Response::add_messages: %s" % bool(sinks), v.where(xb))
+        ctx.ob(rule, "%s|transfer-attached" % p, bool(sinks), "transfer message reaches Response::add_messages: %s" % bool(sinks), v.where(xb))
         # reset <=> transfer: region walk on the entry amount
         def is_x(os_):
             return bool(os_) and all(o.kind == "load" and o.a.endswith(ledger) and o.proj and o.proj[-1] == "amount" for o in os_)
         tracked, ths = single_var_guard(v, is_x, [Fraction(0)])
         unresolved = getattr(v, "_unresolved_cmp", [])
         if unresolved:
-            ctx.ob("C07-F3", "%s|reset-iff-transfer" % p, False, "comparison of the pending amount with an unevaluated constant %s" % unresolved,
+            ctx.ob(rule, "%s|reset-iff-transfer" % p, False, "comparison of the pending amount with an unevaluated constant %s" % unresolved,
                    v.where(unresolved[0][0]), kind="unrecognised")
             continue
         # zeroing sites: `Asset { amount: 0, .. }` values that flow into the ledger save
@@ -176,7 +178,7 @@ def check_collect(ctx, model, crate, p, ledger, vault=False):
                     if any(o.kind == "load" and o.a.endswith(ledger) for o in base):
                         zsites.append(b)
         if not zsites:
-            ctx.ob("C07-F3", "%s|reset-iff-transfer" % p, False,
+            ctx.ob(rule, "%s|reset-iff-transfer" % p, False,
                    "cannot find where the pending ledger entry is zeroed (no Asset{amount: 0} flowing into the %s save)" % ledger.split("::")[-1],
                    v.where(saves[0][0]), kind="unrecognised")
             continue
@@ -193,14 +195,14 @@ def check_collect(ctx, model, crate, p, ledger, vault=False):
                 bad.append("amount=%s is zeroed in the ledger but not transferred" % x)
             if x > 0 and sent and not zeroed:
                 bad.append("amount=%s is transferred but stays in the ledger" % x)
-        ctx.ob("C07-F3", "%s|reset-iff-transfer" % p, not bad,
+        ctx.ob(rule, "%s|reset-iff-transfer" % p, not bad,
                ("MISMATCH " + "; ".join(bad) + " | " if bad else "") + "pending amount regions (transfer/ledger): %s" % rows,
                v.where(xb))
     # every message created here is a transfer to the collector
     for b, i, l, desc in message_creations(v, model):
         if "into_msg" in desc:
             continue
-        ctx.ob("C07-F3", "%s|no-other-message|%s" % (p, desc), False, "collect builds a message other than the fee transfer: %s" % desc, v.where(b))
+        ctx.ob(rule, "%s|no-other-message|%s" % (p, desc), False, "collect builds a message other than the fee transfer: %s" % desc, v.where(b))
 
 
 def check_store_fee_addonly(ctx, model, crate):
@@ -303,9 +305,63 @@ def check_vault_after_trade(ctx, model):
                "burn message amount from %s; attached: %s; paired with ALL_TIME_BURNED_FEES write: %s" % (sorted(map(repr, src)), bool(sinks) or ret, paired), v.where(bb))
 
 
+def check_ledger_init(ctx, model, crate):
+    """F5: at instantiation each of the three ledgers gets exactly one zero entry per pool asset, in pool order
+    (store_fee silently skips an asset that has no entry, so a missing entry loses every later charge)."""
+    from .C03 import _array_index
+    p = "%s::contract::instantiate" % crate
+    v = ctx.view(p, "C07-F5")
+    h = ctx.view("%s::helpers::instantiate_fees" % crate, "C07-F5")
+    if v is None or h is None:
+        return
+    calls = v.calls_to(r"^%s::helpers::instantiate_fees$" % crate)
+    items = []
+    for b, t in calls:
+        n = len(t["args"]) - 2
+        it = arg_origins(v, b, t, len(t["args"]) - 1)
+        item = sorted(o.a for o in it if o.kind == "item")
+        items += item
+        idxs = []
+        rooted = True
+        for k in range(1, n + 1):
+            idx = None
+            for o in arg_origins(v, b, t, k):
+                c = call_of(v, o)
+                if c and mname(c[1]).endswith("::to_normal"):
+                    idx = _array_index(v, c[1]["args"][0], v.at_term(c[0]))
+                    root = v.origins_of_operand(c[1]["args"][0], at=v.at_term(c[0]), taint=True)
+                    rooted = rooted and any(x.kind == "param" and x.a == 4 and tuple(x.proj[:1]) == ("asset_infos",) for x in root)
+                else:
+                    idx = None
+                    break
+            idxs.append(idx)
+        ctx.ob("C07-F5", "%s|init|%s" % (p, ",".join(x.split("::")[-1] for x in item) or "?"), idxs == list(range(n)) and rooted and len(item) == 1,
+               "ledger %s initialised with the normalised asset_infos%s of the request (must be [0..%d) in order)" % (item, idxs, n), v.where(b))
+    want = {"%s::state::%s" % (crate, x) for x in ("COLLECTED_PROTOCOL_FEES", "ALL_TIME_COLLECTED_PROTOCOL_FEES", "ALL_TIME_BURNED_FEES")}
+    ctx.ob("C07-F5", "%s|three-ledgers" % p, sorted(items) == sorted(want), "ledgers initialised: %s" % sorted(items), v.where())
+    # the helper: one Asset{info: param_k, amount: zero} per asset parameter, saved under the item parameter
+    n = h.argc - 2
+    infos = []
+    zero = True
+    for b, i, s_ in h.iter_stmts():
+        rv = s_["rv"]
+        if rv["r"] == "agg" and rv.get("adt", "").endswith("asset::Asset"):
+            f = dict(zip(rv["fields"], rv["ops"]))
+            io = h.origins_of_operand(f["info"], at=(b, i))
+            ao = h.origins_of_operand(f["amount"], at=(b, i))
+            infos.append(sorted(o.a for o in io if o.kind == "param" and not o.proj) if io and all(o.kind == "param" and not o.proj for o in io) else None)
+            zero = zero and bool(ao) and all(o.kind == "call" and o.a.endswith("Uint128::zero") for o in ao)
+    saves = [(b, t) for b, t in h.iter_calls() if (storage_call(t) or (None, None))[1] == "save"]
+    recv_ok = len(saves) == 1 and all(o.kind == "param" and o.a == h.argc for o in h.origins_of_operand(saves[0][1]["args"][0], at=h.at_term(saves[0][0])))
+    ctx.ob("C07-F5", "%s::helpers::instantiate_fees|one-zero-entry-per-asset" % crate,
+           infos == [[k] for k in range(2, 2 + n)] and zero and recv_ok,
+           "entries built from parameters %s with zero amounts: %s, saved under the item parameter: %s" % (infos, zero, recv_ok), h.where())
+
+
 def run(ctx):
     model = ctx.model()
     for crate in POOLS:
+        check_ledger_init(ctx, model, crate)
         check_swap(ctx, model, crate)
         check_collect(ctx, model, crate, "%s::commands::collect_protocol_fees" % crate, "%s::state::COLLECTED_PROTOCOL_FEES" % crate)
         check_store_fee_addonly(ctx, model, crate)
